@@ -320,7 +320,9 @@ Section NeverVoid.
   Proof.
     unfold do_call. destruct (o_fault o) as [[n er]|]; [|apply sem_fd_effect].
     destruct (_ && _)%bool; [|apply sem_fd_effect].
-    cbn [fst snd]. apply fd_effect_same; [reflexivity|reflexivity|intros; discriminate].
+    pose proof (sem_fd_effect (w_fs w) (mkEnv (o_gran o) (o_atime o) ord) c) as (H1 & H2 & H3).
+    destruct c; cbn [fst snd]; try (apply fd_effect_same; [reflexivity|reflexivity|intros; discriminate]).
+    all: split; [exact H1|split; [exact H2|intros d Hd; discriminate]].
   Qed.
 
   (** Every sequential run is a well-behaved environment. *)
